@@ -24,6 +24,7 @@ HISTORY_DEFS = [
     ("union U { uint64 q; struct { uint32 a; uint32 b; } two; uint8 bytes[8]; };", False),
     ("union U { union { struct { uint8 a; uint8 b; } s; uint16 w; } inn; uint32 full; };", False),
     ("union U { struct { uint16 lo; uint16 hi; }; uint8 b; };", False),
+    ("union U { struct { uint32 w; }; struct { uint8 a; uint8 b; uint8 c; }; uint16 h; };", False),
     ("union U { union { struct { uint8 a; uint8 b; } s; uint32 w; } inn; uint32 z; };", False),
     ("union U { uint16 k; union { uint8 t; struct { uint8 a; union { uint8 c; uint16 d; } deep; } s; } inn; };", False),
 ]
